@@ -591,6 +591,9 @@ func (in *input) readToken() {
 					in.pos = in.token.pos
 					in.Error("unexpected EOF in string")
 				}
+				if in.peekRune() == '\n' {
+					in.Error("unexpected newline in string")
+				}
 				in.readRune()
 			}
 		}
